@@ -979,6 +979,7 @@ class Handle:
         self.n_reopen = 0
         self.watchers = {}  # path -> long-lived node wrapper used only for reading (see drivers/c07.py)
         self.held = {}  # path -> node.meta handle kept across consecutive attach/detach operations (as user code holding `m = node.meta` does)
+        self.nodes = {}  # path -> [kept NODE wrapper whose .meta was looked at once, number of attach/detach operations on that path since]
 
     @property
     def raw(self):
@@ -1033,6 +1034,39 @@ def instance_of(name, ver, idx, as_="obj"):
     return info.objs[i].copy(deep=True)
 
 
+def meta_handle(h: Handle, mc, path: str):
+    """The interface object the next attach/detach on `path` goes through. User code either keeps `m = node.meta` (the library keeps that object
+    up to date through its own writes) or keeps the NODE and says `node.meta[...]` each time (a new interface object per access, built from the
+    node as it is now). Both styles alternate here; the kept node looked at its metadata once when it was obtained. The library does not keep
+    two live interface objects of one node coherent, so the kept `m` is dropped whenever the other style was used."""
+    ent = h.nodes.get(path)
+    if ent is None:
+        w = node_of(mc, path)
+        len(w.meta)
+        ent = h.nodes[path] = [w, 0]
+    w, n = ent
+    ent[1] += 1
+    if n % 2 == 1:
+        h.held.pop(path, None)
+        return w.meta
+    meta = h.held.get(path)
+    if meta is None:
+        meta = h.held[path] = node_of(mc, path).meta
+    return meta
+
+
+def _rekey_kept_nodes(h: Handle, src: str, dst: str):
+    """h5py keeps a held group/dataset handle valid over a move (its .name follows): kept node wrappers follow the node to its new path."""
+    src, dst = src.strip("/"), dst.strip("/")
+    moved = {}
+    for p, ent in h.nodes.items():
+        q = p.strip("/")
+        if q == src:  # only the moved node itself: h5py does not update the name of held handles of its descendants
+            moved[dst] = ent
+    h.nodes.clear()
+    h.nodes.update(moved)
+
+
 def apply_cop(h: Handle, op, timeout: float = OP_TIMEOUT_S):
     """Apply one container operation through the public MetadorContainer interface.
 
@@ -1080,18 +1114,14 @@ def apply_cop(h: Handle, op, timeout: float = OP_TIMEOUT_S):
                     key = (sname, tuple(ver))
                 else:
                     key = sname
-                meta = h.held.get(path)
-                if meta is None:
-                    meta = h.held[path] = node_of(mc, path).meta
+                meta = meta_handle(h, mc, path)
                 if env is not None:
                     with restricted_env(sname, env):
                         meta[key] = val
                 else:
                     meta[key] = val
             elif kind == "detach":
-                meta = h.held.get(op[1])
-                if meta is None:
-                    meta = h.held[op[1]] = node_of(mc, op[1]).meta
+                meta = meta_handle(h, mc, op[1])
                 del meta[op[2]]
             elif kind == "reopen":
                 h.reopen()
@@ -1104,6 +1134,10 @@ def apply_cop(h: Handle, op, timeout: float = OP_TIMEOUT_S):
         if kind not in ("attach", "detach"):
             h.held.clear()  # handles are only reused while nothing else happened to the container
             h.watchers.clear()
+            if kind == "move" and h.kind == "h5":
+                _rekey_kept_nodes(h, op[1], op[2])
+            else:
+                h.nodes.clear()
         return ("ok", None, "")
     except OpTimeout:
         return ("hang", None, "")
@@ -1112,6 +1146,7 @@ def apply_cop(h: Handle, op, timeout: float = OP_TIMEOUT_S):
         if kind not in ("attach", "detach"):
             h.held.clear()
             h.watchers.clear()
+            h.nodes.clear()
         return ("err", type(e).__name__, str(e)[:200])
 
 
